@@ -49,18 +49,25 @@ class Ctx:
         base = self.engine()
         return Engine(base.mir, base.src)
 
-    def explore(self, name, scenario, max_paths=20000, time_limit=None, allow_panic=None, engine_setup=None, budget_violation=None):
+    def explore(self, name, scenario, max_paths=20000, time_limit=None, allow_panic=None, engine_setup=None, budget_violation=None, soft=False):
         """run a scenario function under the executor; the scenario calls ctx.require(...) itself.
         Panic paths are violations of clause 'no-panic' unless allow_panic(path) says the panic is expected."""
         e = self.fresh_engine()
         if engine_setup: engine_setup(e)
         e.ctx = self
         t0 = time.time()
+        # soft: in the thorough tier a scenario that runs out of its time / path budget or gets `unknown` from the solver is
+        # recorded as not explored (evidence) and the other scenarios go on; in the quick tier it makes the check inconclusive
+        soft = soft and self.tier != 'quick'
         try:
             res = e.explore(scenario, max_paths=max_paths, time_limit=time_limit, slim=True)
         except Unmodelled as u:
+            if soft and 'solver returned unknown' in str(u):
+                self.not_explored.append('scenario %s: solver gave no answer within its cap (%s)' % (name, str(u)[:80])); return []
             raise Inconclusive('scenario %s: unmodelled: %s @ %s' % (name, u, getattr(u, 'mir_where', '')))
         except Budget as b:
+            if soft:
+                self.not_explored.append('scenario %s: %s' % (name, b)); return []
             raise Inconclusive('scenario %s: %s' % (name, b))
         for p in res:
             if p.kind == 'panic':
@@ -159,7 +166,10 @@ class Ctx:
         _PAR = (self, worker)
         with mp.get_context('fork').Pool(nproc) as pool:
             for res in pool.imap_unordered(_par_entry, jobs):
-                if 'error' in res: raise Inconclusive(res['error'])
+                if 'error' in res:
+                    if self.tier != 'quick' and 'memory limit' in res['error']:
+                        self.not_explored.append(res['error']); continue
+                    raise Inconclusive(res['error'])
                 self.merge(res)
 
     def fresh_point(self, e):
